@@ -5,6 +5,7 @@ import copy
 
 import fiddle as fdl
 from fiddle._src import diffing
+from fiddle._src import mutate_buildable
 
 from fvlib import fam, sigs
 from fvlib import stubs
@@ -19,7 +20,7 @@ EXPLANATION = (
     'bounded symbolic execution of the real diffing.build_diff (align_heuristically, _DiffFromAlignmentBuilder) and '
     'diffing.apply_diff (resolve_diff_references, _validate_changes, _apply_changes, update_callable, tag operations) '
     'with CrossHair + z3: `old` is a three-node DAG family member (child targets solver-enumerated, six wrapper kinds, '
-    'tags, shared containers), `new` is derived by two edits out of 14 kinds (leaf change, callable swap with and '
+    'tags, shared containers), `new` is derived by two edits out of 19 kinds (leaf change, callable swap with and '
     'without parameter loss, argument add / remove, tag add / remove, alias created / broken, subtree moved, container '
     'edit, subtree replaced, children swapped, rotation) applied to a deep copy or to a shallow copy that shares '
     'objects with old by identity, or is an unrelated family member; edit kinds and pair mode are cube parameters, '
@@ -62,7 +63,9 @@ def _make(t1x, t1y, t2x, t2y, w, off):
 
 EDITS = ['leaf', 'callable_same_sig', 'callable_drops_param', 'arg_add', 'arg_remove', 'tag_add', 'tag_remove',
          'alias_create', 'alias_break', 'move_subtree', 'container_edit', 'replace_subtree', 'swap_children', 'rotate3',
-         'tuple_alias_create', 'tuple_elements_swap']
+         'tuple_alias_create', 'tuple_elements_swap', 'callable_to_kwargs_keeping_surplus', 'tuple_append',
+         'tuple_truncate']
+NE = len(EDITS)
 
 
 def _nodes_of(root):
@@ -137,12 +140,26 @@ def _edit(e, root, i, off):
     if fdl.get_callable(root) is two:
       return False
     root.x, root.y, root.z = root.__arguments__.get('y'), root.__arguments__.get('z', off + 90), root.x
+  elif e == 16:
+    # the new callable takes **kwargs: the argument it has no parameter for stays, as an extra keyword
+    if fdl.get_callable(n) is two:
+      return False
+    if 'z' not in n.__arguments__:
+      n.z = off + 63
+    # (built without update_callable, which is part of what apply_diff uses and therefore under test)
+    m = type(n)(fam.fkw)
+    for key, val in n.__arguments__.items():
+      setattr(m, key, val)
+    for key in list(n.__argument_tags__):
+      fdl.set_tags(m, key, fdl.get_tags(n, key))
+    mutate_buildable.move_buildable_internals(source=m, destination=n)
   else:
-    # an equal tuple whose memoizable elements alias differently (e == 14) or trade places (e == 15)
+    # an equal tuple whose memoizable elements alias differently (e == 14) or trade places (e == 15); the same tuple
+    # with one more element (17) or one less (18)
     for b in nodes:
       t = b.__arguments__.get('z')
       if isinstance(t, tuple) and len(t) == 3 and isinstance(t[0], list):
-        b.z = (t[0], t[0], t[2]) if e == 14 else (t[1], t[0], t[2])
+        b.z = {14: (t[0], t[0], t[2]), 15: (t[1], t[0], t[2]), 17: t + (off + 95,), 18: t[:2]}[e]
         return True
     return False
   return True
@@ -153,11 +170,11 @@ def c10_pair(mode: int, e1: int, e2: int, i1: int, i2: int, w: int, t1x: int, t1
   """
   mode 0: new = deepcopy(old) + edits; 1: new = shallow copy of old + edits (shares objects with old by identity);
   2: new = an unrelated member (targets u*) + edits.
-  require: 0 <= mode <= 5 and 0 <= e1 <= 15 and 0 <= e2 <= 15 and 0 <= i1 <= 2 and 0 <= i2 <= 2 and 0 <= w <= 5
+  require: 0 <= mode <= 5 and 0 <= e1 <= 18 and 0 <= e2 <= 18 and 0 <= i1 <= 2 and 0 <= i2 <= 2 and 0 <= w <= 5
   require: -1 <= t1x <= 0 and -1 <= t1y <= 0 and -1 <= t2x <= 1 and -1 <= t2y <= 1
   require: -1 <= u1x <= 0 and -1 <= u2x <= 1 and -1 <= u2y <= 1
   """
-  e1, e2, i1, i2 = _conc(e1, 0, 15), _conc(e2, 0, 15), _conc(i1, 0, 2), _conc(i2, 0, 2)
+  e1, e2, i1, i2 = _conc(e1, 0, NE - 1), _conc(e2, 0, NE - 1), _conc(i1, 0, 2), _conc(i2, 0, 2)
   t1x, t1y, t2x, t2y = _conc(t1x, -1, 0), _conc(t1y, -1, 0), _conc(t2x, -1, 1), _conc(t2y, -1, 1)
   u1x, u2x, u2y = _conc(u1x, -1, 0), _conc(u2x, -1, 1), _conc(u2y, -1, 1)
   old, _ = _make(t1x, t1y, t2x, t2y, w, 0)
@@ -176,8 +193,9 @@ def c10_pair(mode: int, e1: int, e2: int, i1: int, i2: int, w: int, t1x: int, t1
     new = kids[0]                                                   # new is a part of old
   else:
     new = old                                                       # the very same object
+  # the first edit always has a subject or says so (returns False); it must not fail
+  a1 = _edit(e1, new, i1, 200) if mode <= 2 else False
   try:
-    a1 = _edit(e1, new, i1, 200) if mode <= 2 else False
     a2 = _edit(e2, new, i2, 300) if mode <= 2 else False
   except (AttributeError, TypeError, KeyError):
     return True          # the second edit has no subject after the first one (e.g. the parameter is gone)
@@ -240,9 +258,9 @@ def c10_positional(kind: int) -> bool:
 def obligations(tier, seed):
   cubes = []
   for mode in range(3):
-    for e1 in range(16):
-      for e2 in range(16):
-        if tier == 'quick' and (e1 * 16 + e2 + mode) % 5:
+    for e1 in range(NE):
+      for e2 in range(NE):
+        if tier == 'quick' and (e1 * NE + e2 + mode) % 5:
           continue
         j = mode + e1 + e2
         fix = dict(mode=mode, e1=e1, e2=e2)
@@ -262,7 +280,7 @@ def obligations(tier, seed):
   smoke = dict(mode=0, e1=0, e2=5, i1=1, i2=2, w=1, t1x=0, t1y=-1, t2x=1, t2y=0, u1x=-1, u2x=-1, u2y=-1)
   return [
       Obligation('c10_pair', c10_pair, cubes, timeout=t, path_timeout=60, smoke=smoke,
-                 extra_smokes=[dict(smoke, mode=e % 3, e1=e, e2=(e + 5) % 16, w=e % 6, u2x=0 if e % 3 == 2 else -1) for e in range(16)] +
+                 extra_smokes=[dict(smoke, mode=e % 3, e1=e, e2=(e + 5) % NE, w=e % 6, u2x=0 if e % 3 == 2 else -1) for e in range(NE)] +
                  [dict(smoke, mode=m, e1=0, e2=0) for m in (3, 4, 5)]),
       Obligation('c10_empty', c10_empty, [Cube(f'w{w}', [], dict(w=w)) for w in range(6)], timeout=120, path_timeout=60,
                  smoke=dict(w=1, t1x=0, t1y=-1, t2x=1, t2y=0)),
